@@ -146,6 +146,24 @@ pub struct Out {
     pub classes: Vec<&'static str>,
 }
 
+/// Smallest transmit arena with which a brand-new session of this configuration (and build)
+/// connects: the free space connect() needs.
+fn connect_need(case: &Case) -> Option<usize> {
+    let fin = case.conns.last()?;
+    for tx in 16..160usize {
+        let c = Case {
+            cfg: Cfg { tx, ..case.cfg.clone() },
+            broker: BrokerMode::Scripted,
+            conns: vec![ConnScript { connect: ConnectSpec { handshake: Handshake::Accept, io: IoCfg::default(), ..fin.connect.clone() }, steps: vec![], end: EndHow::Drop }],
+        };
+        let t = run_case(&c);
+        if t.conns.first().is_some_and(|x| x.1.is_ok()) {
+            return Some(tx);
+        }
+    }
+    None
+}
+
 fn twin_of(case: &Case) -> Case {
     let mut fin = final_script(&case.conns[0].connect, true);
     fin.connect.props = case.conns.last().unwrap().connect.props.clone();
@@ -269,7 +287,17 @@ pub fn eval(case: &Case) -> Out {
             ConnRes::Err(e) => format!("{e:?}"),
             other => format!("{other:?}"),
         };
-        let sig_tail = if fin_res == ConnRes::Err(ErrKind::BufferTooSmall) && !quiescent_before {
+        // the known defect is "the CONNECT does not fit behind the retained packets"; if it does
+        // fit (retained bytes known exactly from the wire, space a CONNECT needs measured on a
+        // brand-new session of the same build) the failure is something else
+        let fits_anyway = fin_res == ConnRes::Err(ErrKind::BufferTooSmall)
+            && !quiescent_before
+            && stats.retained_at_conn_start.iter().rev().find(|x| x.0 == fin_tr).is_some_and(|(_, bytes, certain)| {
+                *certain && connect_need(case).is_some_and(|need| case.cfg.tx >= bytes + need)
+            });
+        let sig_tail = if fits_anyway {
+            "BufferTooSmall,although-the-connect-fits-behind-the-retained-packets".to_string()
+        } else if fin_res == ConnRes::Err(ErrKind::BufferTooSmall) && !quiescent_before {
             "BufferTooSmall,retained-packets-leave-no-room-for-connect".to_string()
         } else if fin_res == ConnRes::Err(ErrKind::BufferTooSmall) {
             "BufferTooSmall,although-nothing-is-retained".to_string()
